@@ -121,6 +121,14 @@ def setup(sess, inline=()):
     return eng
 
 
+def reader_fields(eng):
+    """What any AudioReader-like object offers besides open/read/close: its format and framing (arbitrary values)."""
+    sr, sw, ch, bs = Int(fresh_name("rd.sr")), Int(fresh_name("rd.sw")), Int(fresh_name("rd.ch")), Int(fresh_name("rd.block_size"))
+    eng.assume(And(sr >= 1, sw >= 1, ch >= 1, bs >= 1))
+    return {"sr": sr, "sw": sw, "ch": ch, "sampling_rate": sr, "sample_width": sw, "channels": ch, "block_size": bs,
+            "block_dur": Fl(eng.spec_div(bs, sr)), "hop_size": bs, "hop_dur": Fl(eng.spec_div(bs, sr))}
+
+
 def queue_ctor(e, a, k):
     """Queue(): the inbox is unbounded (a bounded inbox makes the producer block or lose messages)."""
     ms = a[0] if a else k.get("maxsize", 0)
@@ -285,6 +293,9 @@ class ObsList:
         eng.iface[("IObserver", "send")] = o_send
         eng.iface[("IObserver", "stop")] = o_stop
         eng.iface[("IObserver", "start")] = o_start
+        # an observer is a worker thread: whether it is running at a given moment is the scheduler's business (it may not
+        # have been started yet, or may have died) -- any answer
+        eng.iface[("IObserver", "is_alive")] = lambda e, o, a, k: Bool(fresh_name("observer.alive"))
 
     def elem(self, i):
         return self.eng.st.new_obj("IObserver", {"index": i})
@@ -336,7 +347,7 @@ def unit_notify(sess, ctx):
         gh = eng.st.ghost
         ol = ObsList(eng)
         gh["observers"] = ol
-        rd = eng.st.new_obj("IReaderW", {})
+        rd = eng.st.new_obj("IReaderW", reader_fields(eng))
         eng.iface[("IReaderW", "close")] = lambda e, o, a, k: events(e).append(("reader.close", o))
         me, q = worker_obj(eng, "TokenizerWorker", {"_observers": ol.ref, "_reader": rd, "_detections": seq_lit("list", [], new_aid())})
         ib = Inbox()
@@ -427,7 +438,7 @@ def unit_tokenizer_run(sess, ctx):
 
     def run_(eng):
         gh = eng.st.ghost
-        rd = eng.st.new_obj("IReaderW", {})
+        rd = eng.st.new_obj("IReaderW", reader_fields(eng))
         eng.iface[("IReaderW", "open")] = lambda e, o, a, k: events(e).append(("reader.open", o))
         eng.iface[("IReaderW", "close")] = lambda e, o, a, k: events(e).append(("reader.close", o))
         G = GenVal("abstract", name="regions", next_fn=None)
@@ -464,7 +475,7 @@ def unit_tokenizer_init_read(sess, ctx):
     def run_(eng):
         gh = eng.st.ghost
         op = eng.choose(2, None, "__init__ / read")
-        rd = eng.st.new_obj("IReaderW", {})
+        rd = eng.st.new_obj("IReaderW", reader_fields(eng))
         gh["rreads"] = 0
         blk = fresh_seq("bytes", "blk")
         rk = eng.choose(2, None, "reader: block / None")
@@ -560,7 +571,7 @@ def unit_stream_saver(sess, ctx):
     def mk(eng, with_file=True):
         gh = eng.st.ghost
         w = wave_writer(eng)
-        rd = eng.st.new_obj("IReaderW", {})
+        rd = eng.st.new_obj("IReaderW", reader_fields(eng))
         A = new_aid()
         catlen = Int("cached_bytes")
         eng.assume(catlen >= 0)
